@@ -434,7 +434,9 @@ func letterCases() []SpellCase {
 	var out []SpellCase
 	// identifier-continue characters that are not letters: combining marks (Mn, Mc), decimal digits of
 	// other scripts (Nd), connector punctuation (Pc) - all XID_Continue, after a letter
-	for _, w := range []string{"नाम", "cafe\u0301", "น้ำ", "தமிழ்", "a\u0663", "a\u203fb", "é\u0300x", "ক্ষ", "한\u0301", "x\u0e31y", "a\u0966", "q\u20d7"} {
+	// ... and the Other_ID_Continue characters (U+00B7 middle dot - the only one in Latin-1 -, U+0387, the Ethiopic
+	// digits U+1369..1371, U+19DA), which are neither letters nor marks nor digits
+	for _, w := range []string{"नाम", "cafe\u0301", "น้ำ", "தமிழ்", "a\u0663", "a\u203fb", "é\u0300x", "ক্ষ", "한\u0301", "x\u0e31y", "a\u0966", "q\u20d7", "col\u00b7lecci\u00f3", "a\u00b7", "a\u0387b", "a\u1369", "a\u1371z", "x\u19da"} {
 		key := func(k string) *Path { return &Path{Root: &Node{K: KRoot, Next: &Node{K: KKey, S: k}}} }
 		out = append(out,
 			SpellCase{Path: key(w), Text: "$." + w, Why: "identifier with combining marks / non-letter continue characters"},
